@@ -208,7 +208,9 @@ theorem step_eff_intoVec (w : Wf cfg s) (h : Nat) :
         have hc := ownerUnique_count ((wf_iff_wfx _ _).mp w) hx hl hu
         have e := (eff_kill (cfg := cfg) hx hl (Or.inr hc)).of_getI_right
           (s' := setH (setI s o { x with live := false }) h none) (fun _ => rfl)
-        exact ⟨stepEff_of_eff e, stepEff_of_eff e⟩
+        have hfs : freesOf (Event.freeInner o :: (if x.cap > 0 then [Event.exportBuf x.buf] else [])) = [o] := by
+          split <;> rfl
+        exact ⟨stepEff_of_eff (e.cast hfs.symm (fun _ h => h)), stepEff_of_eff (e.cast hfs.symm (fun _ h => h))⟩
       · simp only [hcond]
         exact ⟨stepEff_refl, hco⟩
 
